@@ -538,3 +538,56 @@ mod tests {
     assert_eq!(v, Value::Tag(1, Box::new(Value::Text("hello".into()))));
   }
 }
+
+/// Verification hooks: one-line forwarders to the private decoder layers so an
+/// out-of-tree harness crate can drive them. Compiled only with
+/// `--cfg anweiss_cddl_verif`.
+#[cfg(anweiss_cddl_verif)]
+#[doc(hidden)]
+#[allow(missing_docs)]
+pub mod verif_hooks {
+  use super::{DecodeError, Decoder, Value};
+
+  pub fn decode_value<R: ciborium_io::Read>(d: &mut Decoder<R>) -> Result<Value, DecodeError>
+  where
+    ciborium_ll::Error<R::Error>: Into<DecodeError>,
+  {
+    super::decode_value(d)
+  }
+  pub fn read_bytes<R: ciborium_io::Read>(
+    d: &mut Decoder<R>,
+    len: Option<usize>,
+  ) -> Result<Vec<u8>, DecodeError>
+  where
+    ciborium_ll::Error<R::Error>: Into<DecodeError>,
+  {
+    super::read_bytes(d, len)
+  }
+  pub fn read_text<R: ciborium_io::Read>(
+    d: &mut Decoder<R>,
+    len: Option<usize>,
+  ) -> Result<String, DecodeError>
+  where
+    ciborium_ll::Error<R::Error>: Into<DecodeError>,
+  {
+    super::read_text(d, len)
+  }
+  pub fn decode_array<R: ciborium_io::Read>(
+    d: &mut Decoder<R>,
+    len: Option<usize>,
+  ) -> Result<Vec<Value>, DecodeError>
+  where
+    ciborium_ll::Error<R::Error>: Into<DecodeError>,
+  {
+    super::decode_array(d, len)
+  }
+  pub fn decode_map<R: ciborium_io::Read>(
+    d: &mut Decoder<R>,
+    len: Option<usize>,
+  ) -> Result<Vec<(Value, Value)>, DecodeError>
+  where
+    ciborium_ll::Error<R::Error>: Into<DecodeError>,
+  {
+    super::decode_map(d, len)
+  }
+}
